@@ -331,14 +331,15 @@ def pair_shifts(case):
     return [off + (t - 200.0) for off, t in pair_inputs(case)]
 
 
-def _problem(case, tmp, single=False):
-    """the fitting problem exactly as Calibration.run_calibration builds it"""
+def _problem(case, tmp, single=False, resolved=None):
+    """the fitting problem exactly as Calibration.run_calibration builds it (`resolved`: the target / weight paths
+    as a `Calibration` object resolved them, instead of the files written to `tmp`)"""
     import pyx
     from pyxel.calibration import FitRange3D, to_fit_range
     from pyxel.calibration.fitting_datatree import ModelFittingDataTree
     from pyxel.pipelines import Processor
 
-    paths, wpaths = _write_targets(case, tmp)
+    paths, wpaths = _write_targets(case, tmp) if resolved is None else resolved
     proc = Processor(detector=pyx.make_detector("CCD", *case["det"]), pipeline=_pipeline(case))
     return ModelFittingDataTree(
         processor=proc, variables=_variables(single), readout=_readout(case),
@@ -350,6 +351,90 @@ def _problem(case, tmp, single=False):
         weights=case["weights"] if case.get("weights_kind") == "list" else None,
         weights_from_file=wpaths, pipeline_seed=case.get("pipeline_seed"),
     )
+
+
+def run_workdirs(case):
+    """history: two calibrations declared one after the other in ONE process with the SAME relative file names
+    (targets and weight files) but different working directories (`working_directory=` option, or the process's
+    current directory); each must be fitted against the files of its own directory.  Returns, per round, the
+    fitness values of the problem built from the paths the Calibration object resolved."""
+    import os
+
+    import numpy as np
+    import pyxel
+    from pyxel.calibration import Algorithm, Calibration
+
+    base = tempfile.mkdtemp(prefix="c11-")
+    cwd = os.getcwd()
+    out = {"rounds": []}
+    try:
+        for k, sub in enumerate(case["rounds"]):
+            d = f"{base}/dir{k}"
+            os.mkdir(d)
+            paths, wpaths = _write_targets(sub, d)
+            rel = [os.path.basename(p) for p in paths]
+            wrel = None if wpaths is None else [os.path.basename(p) for p in wpaths]
+            try:
+                if case["how"] == "chdir":
+                    os.chdir(d)
+                    wd = None
+                else:
+                    wd = d
+                cal = Calibration(
+                    target_data_path=rel, fitness_function=_fitness_function(sub), algorithm=Algorithm(type="sade", generations=1, population_size=8),
+                    parameters=_variables(False), readout=_readout(sub), result_type=sub["result_type"],
+                    result_fit_range=sub["result_range"], target_fit_range=sub["target_range"],
+                    result_input_arguments=_input_arguments(sub), weights_from_file=wrel,
+                    weights=sub["weights"] if sub["weights_kind"] == "list" else None, working_directory=wd,
+                )
+                resolved = ([str(p) for p in cal.target_data_path],
+                            None if cal.weights_from_file is None else [str(p) for p in cal.weights_from_file])
+                prob = _problem(sub, d, resolved=resolved)
+                out["rounds"].append({"fitness": [float(prob.fitness(np.array(x))[0]) for x in sub["xs"]]})
+            except Exception as e:  # noqa: BLE001
+                out["rounds"].append({"error": common.err_kind(e), "msg": str(e)[:200]})
+            finally:
+                os.chdir(cwd)
+        return out
+    finally:
+        os.chdir(cwd)
+        pyxel.set_options(working_directory=None)
+        shutil.rmtree(base, ignore_errors=True)
+
+
+def gen_workdirs_case(rng, i):
+    """two (three) declarations that differ only in the CONTENT of equally named files"""
+    import copy
+
+    first = gen_fitness_case(rng, multi=False, weights=["file", "none", "file", "list"][i % 4])
+    rounds = [first]
+    for _ in range(1 + (i % 2)):
+        nxt = copy.deepcopy(first)
+        n = _size(first["target_shape"])
+        while True:
+            nxt["targets"] = [[float(rng.randrange(0, 40)) for _ in range(n)] for _ in first["targets"]]
+            if first["weights_kind"] == "file":
+                nxt["weights"] = [[rng.choice([1.0, 2.0, 4.0, 0.5]) for _ in range(n)] for _ in first["targets"]]
+            if all(expected_fitness(nxt, x) is not None and expected_fitness(nxt, x) != expected_fitness(rounds[-1], x) for x in nxt["xs"]):
+                break
+        nxt["target_dtype"] = "float64"
+        rounds.append(nxt)
+    return {"stream": "workdirs", "how": ["working_directory", "chdir"][(i // 2) % 2], "rounds": rounds}
+
+
+def predicate_workdirs(case, impl):
+    for k, (sub, r) in enumerate(zip(case["rounds"], impl["rounds"])):
+        if "error" in r:
+            return ("C11:workdir-declaration-fails", f"calibration #{k + 1} declared with relative file names under its own directory ({case['how']}) fails: {r['error']} {r['msg']}")
+        for x, f in zip(sub["xs"], r["fitness"]):
+            e = expected_fitness(sub, x)
+            if e is not None and not feq(f, e):
+                other = [j for j, o in enumerate(case["rounds"]) if j != k and expected_fitness(o, x) is not None and feq(f, expected_fitness(o, x))]
+                return ("C11:fitness-on-other-files",
+                        f"calibration #{k + 1} ({case['how']}: same relative target / weight file names as calibration #1, other directory): fitness({x}) = {f!r}, "
+                        f"the declared data of its own directory give {float(e)!r}"
+                        + (f" — it is the value for the files of calibration #{other[0] + 1}" if other else ""))
+    return None
 
 
 def run_ranges(case):
@@ -786,6 +871,15 @@ def body(ck: common.Check):
                 raise common.InfraError(f"python oracle {e} and Lean fitnessTotal {m} disagree on {case}")
             if e is not None and "fitness" in impl and not feq(impl["fitness"][i], m):
                 ck.disagreement("fitness", case, impl["fitness"][i], ans["model"])
+    # ---- histories: equally named files under different working directories
+    for i in range(6 if quick else 40):
+        wc = gen_workdirs_case(rng, i)
+        impl = run_workdirs(wc)
+        ck.case(wc, nontrivial=True, stream="workdirs")
+        ck.count("workdirs:" + wc["how"] + "/weights=" + wc["rounds"][0]["weights_kind"])
+        pv = predicate_workdirs(wc, impl)
+        if pv:
+            ck.violation(pv[0], pv[1], {"case": wc, "impl": impl})
     # ---- full calibrations
     run_impls = [run_calibration(c) for c in runs]
     creqs = []
@@ -823,7 +917,8 @@ def body(ck: common.Check):
     ck.rule = ("ranges: targets 2-7 x 2-7 (x 1-4 readouts), detector same or larger, range pairs equal / shifted / unequal / out of bounds / "
                "wild (None, negative, beyond the size) / undeclared, 4- and 6-value result ranges, + the two documented end-point patterns; "
                "fitness: 1-3 target/input pairs (input arguments over a model argument and/or the detector field environment.temperature, own value per target), target files of dtype float64 / uint8 / uint16 / uint32 / int32, weights incl. fractional ones (0.25, 0.5, 1.75), integer data with NaNs, equal and shifted ranges, weights none / per-target list / files, "
-               "abs / squared / reduced chi2, single and multi readout, pixel / signal / image; run: sade / sga / nlopt, 1-2 islands, 3 evolutions, "
+               "abs / squared / reduced chi2, single and multi readout, pixel / signal / image; histories of 2-3 calibrations declared in one process with "
+               "the same relative target / weight file names under different directories (working_directory option or os.chdir); run: sade / sga / nlopt, 1-2 islands, 3 evolutions, "
                "+ nlopt with selection worst / random and replacement best, 3-6 evolutions, maxeval 3-6 (population best != champion): champion "
                "monotone per island and best champion = best fitness evaluated so far after every evolution; "
                "+ seeded-stochastic runs (pipeline_seed declared, noise model without own seed): /simulated and /full_size vs an independent seeded "
@@ -838,7 +933,7 @@ def body(ck: common.Check):
 
 
 def _run_case(case):
-    return {"ranges": run_ranges, "fitness": run_fitness, "run": run_calibration}[case["stream"]](case)
+    return {"ranges": run_ranges, "fitness": run_fitness, "run": run_calibration, "workdirs": run_workdirs}[case["stream"]](case)
 
 
 if __name__ == "__main__":
@@ -850,7 +945,7 @@ if __name__ == "__main__":
             print("replay names a broken obligation/correspondence, no concrete input:", rp["what"])
             sys.exit(1)
         impl = _run_case(case)
-        pv = {"ranges": predicate_ranges, "fitness": predicate_fitness, "run": predicate_run}[case["stream"]](case, impl)
+        pv = {"ranges": predicate_ranges, "fitness": predicate_fitness, "run": predicate_run, "workdirs": predicate_workdirs}[case["stream"]](case, impl)
         print("impl:", {k: v for k, v in impl.items() if k != "evaluated"})
         print("REPRODUCED: " + pv[1] if pv else "not reproduced (property holds on this input)")
         sys.exit(1 if pv else 0)
